@@ -503,3 +503,13 @@ func Garbage(t int) Val {
 	}
 	return F(1.0 / 3)
 }
+
+// MyInt16ID is the type id of the named type MyInt16.
+func MyInt16ID() int {
+	for _, t := range Types {
+		if t.Name == "MyInt16" {
+			return t.ID
+		}
+	}
+	panic("no MyInt16")
+}
